@@ -446,6 +446,10 @@ def sliceDict (params : List Nat) (s : List α) : List (List α) :=
 def mappedDataDict (Bs : List (List (List α))) (s : List α) : List (List α) :=
   List.zipWith mappedViaMatrix Bs (sliceDict (Bs.map fun B => (B.headD []).length) s)
 
+/-- the full blurred mapping matrix of `m` data points: the objects' matrices side by side (`np.hstack`) -/
+def hstack (m : Nat) (Bs : List (List (List α))) : List (List α) :=
+  (List.range m).map fun i => (Bs.map fun B => B.getD i []).flatten
+
 /-- `mapped_reconstructed_data = sum(dict.values())` (Python `sum`: 0 + v₀ + v₁ + …) over `m` data points -/
 def mappedData (m : Nat) (imgs : List (List α)) : List α :=
   imgs.foldl (fun acc v => List.zipWith (· + ·) acc v) (List.replicate m 0)
